@@ -70,6 +70,14 @@ Section C15.
   Qed.
 End C15.
 
+(* the instruction-list form evaluated in the correspondence run ends in the state of the history
+   it stands for (and records bm_get / bm_mem / previous values along the way: bm_script_obs) *)
+Theorem C15_script_follows_history : forall T khtbl chtbl lit is,
+  snd (bm_script T khtbl chtbl (bm_init lit) is)
+  = bm_run (py_eq T) (py_lt T) (lookup_val khtbl) (lookup_hash chtbl) lit (bm_ops_of is).
+Proof. intros. apply bm_script_state. Qed.
+
+Print Assumptions C15_script_follows_history.
 Print Assumptions C15_refines_layered.
 Print Assumptions C15_layer_invariant.
 Print Assumptions C15_diff_applies.
